@@ -871,6 +871,10 @@ CONSTRAINT_SETS = {
     "none": ({"fix_var": _BASE_FIX}, None, {}, {}),
     "fixed": ({"fix_var": dict(_BASE_FIX, **{"A->R_BD.C_g_ls_1r": 0.9, "A->R_BD.C_g_ls_1i": 0.2})}, None, {}, {}),
     "tied": ({"fix_var": _BASE_FIX, "var_equal": [list(_TIED)]}, None, {}, {}),
+    # the same tie, started at a NEGATIVE tied magnitude (an equivalent description of an amplitude, phases shifted by pi): a fit that is stopped early
+    # ends there, and the sign tidy-up that follows the scipy minimisers (VarsManager.standard_complex) must treat the tie group as one parameter
+    # (added after seeded change C08-standard_complex_head_of_tie_group)
+    "tied_negative": ({"fix_var": _BASE_FIX, "var_equal": [list(_TIED)]}, None, {_TIED[0]: -0.7, _TIED[1]: -0.7}, {}),
     "one_sided": ({"fix_var": _BASE_FIX, "var_range": {"R_BC_width": [0.05, None], "A->R_BD.CR_BD->B.D_total_0r": [None, 2.5]}}, None, {},
                   {"R_BC_width": (0.05, None), "A->R_BD.CR_BD->B.D_total_0r": (None, 2.5)}),
     # the width optimum of the toy sample is ~0.14: the upper bound 0.1 is active at the end of a converged fit; the mass bound is not
@@ -1059,13 +1063,13 @@ def _fit_once(ctx, agg, method, cset, maxiter, cfg, config, bounds, samples, tmp
     agg.add(method + "/not_above_start", res.min_nll <= nll_start + 1e-9 and nll_at <= nll_start + 1e-9, _FIT_CLAUSES["not_above_start"],
             dict(wit, nll_at_result_params=nll_at))
     # (4) fixed parameters, trainable list
-    tied_dep = set(_TIED[1:]) if cset == "tied" else set()
+    tied_dep = set(_TIED[1:]) if cset.startswith("tied") else set()
     fixed_names = [k for k in before if k not in trainable_before and k not in tied_dep]
     badf = {k: (before[k], after.get(k)) for k in fixed_names if after.get(k) != before[k]}
     agg.add(method + "/fixed_unchanged", not badf and list(vm.trainable_vars) == trainable_before, _FIT_CLAUSES["fixed_unchanged"],
             dict(wit, changed=badf, trainable_before=trainable_before, trainable_after=list(vm.trainable_vars)))
     # (5) tied
-    if cset == "tied":
+    if cset.startswith("tied"):
         vals = [after.get(k) for k in _TIED] + [rp.get(k, after.get(k)) for k in _TIED]
         agg.add(method + "/tied_equal", all(v == vals[0] for v in vals), _FIT_CLAUSES["tied_equal"], dict(wit, tied=_TIED, values=vals))
     # (6) bounds
@@ -1210,6 +1214,7 @@ def fit_first_order(ctx):
     agg = Agg()
     if ctx.tier == "quick":
         _fit_group(ctx, ["BFGS"], ["tied", "two_sided", "gauss"], [1, 5, 30], agg=agg)
+        _fit_group(ctx, ["BFGS", "CG"], ["tied_negative"], [2], second_fit=False, agg=agg)
         _fit_group(ctx, ["BFGS"], ["gauss_pull"], [30], agg=agg)
         _fit_group(ctx, ["BFGS"], _ZERO_SETS, [30], second_fit=False, agg=agg)
         _fit_group(ctx, ["CG", "test", "Nelder-Mead"], ["none", "gauss_pull"], [5], second_fit=False, agg=agg)
